@@ -176,4 +176,15 @@ CHECKS = {
         "note": STD_NOTE + " AXIOM: the C18 theorems depend on FunctionalExtensionality.functional_extensionality_dep (Coq standard library), used once (sub_trunc / view_nil) to identify a view of the truncated file with the same view of the whole file; it is the only axiom in the development and is allow-listed for C18 only.",
         "technique": "Coq proof (one view lemma via functional extensionality + monotone bounds checks, per-query and generic-over-programs) + correspondence + metamorphic prefix oracle",
     },
+    "C16": {
+        "text": "Coq theorems that the fuel of every total model loop is never exhausted and that more fuel changes nothing (so the model "
+                "function IS the terminating real loop), with item bounds: C16_entry_iterators (exactly blen/size <= blen items), C16_notes "
+                "(any bytes, any alignment: terminates, <= blen/12 notes), C16_version_iterators (any declared count and start offset: "
+                "terminate, <= count items, <= blen+1 items), C16_version_fuel_free, C16_version_queries + C16_definition_names (the nested "
+                "loops of get_requirement / get_definition / names always complete); hash-chain walks recurse structurally on the code's "
+                "own bound (nchain; chain_len - start), non-vacuity example on a self-loop chain. Tie: adversarial structures (cycles of "
+                "every length, no stop bit, next = 0/overlapping, counts 2^32-1, aux chains past the count) vs the model, watchdog for hangs.",
+        "note": STD_NOTE + " PARTIAL by nature: the wall-clock clause ('every query on <= 64 KiB completes within seconds') is a run-time fact; it is measured on five 64 KiB worst cases per run (10 s limit), not proved.",
+        "technique": "Coq proof (termination measures, fuel independence, item bounds) + adversarial correspondence with watchdog + timed 64 KiB cases",
+    },
 }
